@@ -30,6 +30,11 @@ func (k Keeper) GetZkpThreshold(ctx context.Context, shardCount uint64) (uint64,
 		return 0, err
 	}
 	replicationFactor := math.LegacyMustNewDecFromStr(params.ReplicationFactor) // TODO: remove with Dec
+	// once the replication factor reaches the number of validators every validator holds every shard; deciding that
+	// before multiplying keeps a large (valid) replication factor from overflowing the decimal / int64 range
+	if replicationFactor.GTE(math.LegacyNewDec(numActiveValidators)) {
+		return shardCount, nil
+	}
 	threshold := min(max(replicationFactor.MulInt64(int64(shardCount)).QuoInt64(int64(numActiveValidators)).Ceil().TruncateInt64(), 1), int64(shardCount))
 
 	return uint64(threshold), nil
